@@ -424,6 +424,48 @@ def part_redefine(ctx, shard):
     world.reset_world()
 
 
+OVERRIDES = [("charge_mks", "C", ["mC", "kC", "C", "A*s"]), ("magnetic_field_mks", "T", ["mT", "T", "kg/(A*s**2)"]), ("electric_potential", "V", ["mV", "V", "kV"]),
+             ("energy", "keV", ["J", "erg", "kJ"]), ("pressure", "bar", ["Pa", "kPa"]), ("resistance", "ohm", ["ohm", "mohm"])]
+
+
+def part_override(ctx, shard):
+    """a derived unit declared on a system (S[dimension] = unit) AFTER the system has been used: every route answers like
+    a system that carried the declaration from the start - also for the electromagnetic atoms, which go through a branch
+    of their own"""
+    for dimname, decl, probes in shard:
+        for base in (("m", "kg", "s"), ("cm", "g", "s", "K", "rad", "A")):
+            world.reset_world()
+            S = UnitSystem("ovr", *base)
+            R = UnitSystem("ovr_ref", *base)
+            try:
+                R[dimname] = decl
+            except Exception:  # noqa: BLE001
+                continue
+            xs = [unyt_array(np.array([1.5, 4.0]), u) for u in probes]
+            for x in xs:  # first use, before the declaration
+                for f in (lambda: x.in_base(S), lambda: x.units.get_base_equivalent(S), lambda: x.copy().convert_to_base(S)):
+                    try:
+                        f()
+                    except Exception:  # noqa: BLE001
+                        pass
+            S[dimname] = decl
+            for x, u in zip(xs, probes):
+                for route, f in (("in_base", lambda n: x.in_base(n)), ("convert_to_base", lambda n: (lambda y: (y.convert_to_base(n), y)[1])(x.copy())), ("get_base_equivalent", lambda n: x.units.get_base_equivalent(n))):
+                    ctx.count("evaluations")
+                    res = []
+                    for sysobj in (S, R):
+                        try:
+                            got = f(sysobj)
+                            res.append(("ok", str(got if route == "get_base_equivalent" else got.units), None if route == "get_base_equivalent" else np.asarray(got.d, dtype=float).tolist()))
+                        except Exception as e:  # noqa: BLE001
+                            res.append(("raise", type(e).__name__, None))
+                    ctx.decided(("override", dimname, base, u, route))
+                    ctx.outcome(("override", dimname, route, res[0][0], res[1][0]))
+                    if res[0] != res[1]:
+                        ctx.violation(f"C10|override|dim={dimname}|route={route}|mode=declaration-after-first-use-ignored", {"part": "override", "dim": dimname, "unit": u, "route": route, "base": list(base)}, res[1], res[0])
+    world.reset_world()
+
+
 # ---- explicit-state part ---------------------------------------------------------------------------------------------
 PROBES = ["J", "erg", "N", "km/s", "Pa", "W/m**2", "g/cm**3", "m**2", "keV", "1/s", "K", "mile/hr"]
 EVENTS = (
@@ -537,6 +579,7 @@ def run(ctx):
     harness.pmap(ctx, part_product, [[s] for s in ALL_SYSTEMS])
     harness.pmap(ctx, part_inconsistent, [[0]], nproc=1)
     harness.pmap(ctx, part_redefine, [[(a, b)] for a in REDEF_BASES for b in REDEF_BASES if a != b])
+    harness.pmap(ctx, part_override, [[o] for o in OVERRIDES])
     depth, dev = (3, 2) if ctx.tier == "quick" else (4, 3)
     stats = {}
     for which in ("user", "galactic", "cgs"):
@@ -583,6 +626,8 @@ def replay(case):
         part_inconsistent(ctx, [0])
     elif p == "redefine":
         part_redefine(ctx, [(tuple(case["first"]), tuple(case["second"]))])
+    elif p == "override":
+        part_override(ctx, [o for o in OVERRIDES if o[0] == case["dim"]])
     else:
         sysm = System(case["which"])
         hist = tuple(tuple(e) for e in case["history"])
